@@ -1,4 +1,4 @@
-import PcbV.Lemmas.C04Rat
+import PcbV.Lemmas.C04Div
 /-
   C04 — Floating-point arithmetic stays within a fixed error of the exact result.
 
@@ -13,10 +13,18 @@ import PcbV.Lemmas.C04Rat
 
   PROVED at full strength: `_normalise`/`_check_limits` (validity, half-ulp half-even rounding,
   overflow/underflow thresholds), division by zero, multiplication (exact product, error ≤ 5/8 ulp
-  < 1 ulp including the low-nibble-9 quirk, Overflow only above the maximum, zero only below 2^-128).
-  PARTIAL: the ≤ 2 ulp bound for + and − is proved for exponent-aligned operands (where it is ≤ 1/2),
-  the < 1 ulp bound for / for divisors that are powers of two (where the quotient is exact); the
-  general statements are `AddErrorBound` / `DivErrorBound` below, covered by correspondence + oracle.
+  < 1 ulp including the low-nibble-9 quirk, Overflow only above the maximum, zero only below 2^-128),
+  ADDITION and SUBTRACTION for all stored operands and every exponent difference (`add_error`,
+  `sub_error`: ≤ 3/2 ulp ≤ 2 ulp; alignment loss, sticky bit, carry, shortcut and the GW-BASIC
+  subtraction quirk included), DIVISION for all stored operands (`div_error`: ≤ (1/2 + w/128) ulp < 1 ulp
+  for every format with w ≤ 63 mantissa bits, so for Single and Double; loop invariant of the
+  shift-and-subtract loop with the lossy right-shifting divisor in Lemmas/C04Div.lean).
+  `add_error_partial` / `div_error_partial` (the fragments proved first) are kept as corollaries.
+  STILL OPEN (correspondence + oracle only): for + − / the statements "Overflow only when the exact
+  result exceeds the maximum" and "zero only when the exact result is below 2^-128" are proved relative
+  to the denormalised value handed to `_normalise` (`normalise_overflow_only_above_max`,
+  `normalise_zero_only_below_min`), not yet relative to the exact sum/quotient (the ≤ 128-unit
+  pre-rounding error would have to be tracked across the binade boundary); for * they are proved exactly.
 -/
 namespace PcbV.C04
 open PcbV PcbV.Mbf PcbV.Mbf.C04
@@ -469,9 +477,7 @@ theorem sub_aligned (f : Fmt) (h : f.WF) (x y : F) (hx : F.Valid f x) (hy : F.Va
     rw [e]
     exact this
 
-/-- the general statements for + and /: NOT proved in Lean (the alignment loss with the two GW-BASIC
-    rounding quirks of `_add_den`, and the lossy right-shifting divisor of `_div_den`, need invariants
-    that were not completed); covered by the correspondence and the exact-arithmetic oracle -/
+/-- the general statements for + and / (proved below: `add_error`, `div_error`) -/
 def AddErrorBound (f : Fmt) : Prop :=
   ∀ x y z : F, F.Valid f x → F.Valid f y → iadd f x y = .ok z → z.e ≠ 0 →
     |val f z - (val f x + val f y)| ≤ 2 * p2 ((z.e : Int) - f.bias)
@@ -480,7 +486,101 @@ def DivErrorBound (f : Fmt) : Prop :=
   ∀ x y z : F, F.Valid f x → F.Valid f y → y.e ≠ 0 → idiv f x y = .ok z → z.e ≠ 0 →
     |val f z - val f x / val f y| < p2 ((z.e : Int) - f.bias)
 
-/-- proved fragment of `AddErrorBound`: exponent-aligned operands -/
+
+/-- FULL STRENGTH for + : for ALL stored operands (any exponent difference, zeros included, same or
+    opposite signs) a non-zero sum is within 3/2 ulp of the exact sum — alignment loss, sticky bit,
+    carry, subtraction shortcut and the GW-BASIC subtraction quirk (clearing bit 7) all included -/
+theorem add_error_three_halves (f : Fmt) (h : f.WF) (x y z : F) (hx : F.Valid f x) (hy : F.Valid f y)
+    (hz : iadd f x y = .ok z) (hze : z.e ≠ 0) :
+    |val f z - (val f x + val f y)| ≤ 3 / 2 * p2 ((z.e : Int) - f.bias) := by
+  have side : ∀ v : F, F.Valid f v → (denorm f v).exp = 0 ∨ SD f (denorm f v) := by
+    intro v hv
+    by_cases h0 : v.e = 0
+    · left; show ((v.e : Nat) : Int) = 0; exact_mod_cast h0
+    · right; exact SD_denorm f h v hv h0 _
+  have := addDen_error f h _ _ (side x hx) (side y hy) z hz hze
+  rwa [sval_denorm f h, sval_denorm f h] at this
+
+/-- the statement's bound for + (≤ 2 ulp), for all stored operands -/
+theorem add_error (f : Fmt) (h : f.WF) : AddErrorBound f := by
+  intro x y z hx hy hz hze
+  have := add_error_three_halves f h x y z hx hy hz hze
+  have hp := p2_pos ((z.e : Int) - f.bias)
+  linarith
+
+/-- FULL STRENGTH for − : the same for subtraction -/
+theorem sub_error_three_halves (f : Fmt) (h : f.WF) (x y z : F) (hx : F.Valid f x) (hy : F.Valid f y)
+    (hz : isub f x y = .ok z) (hze : z.e ≠ 0) :
+    |val f z - (val f x - val f y)| ≤ 3 / 2 * p2 ((z.e : Int) - f.bias) := by
+  have hl : (denorm f x).exp = 0 ∨ SD f (denorm f x) := by
+    by_cases h0 : x.e = 0
+    · left; show ((x.e : Nat) : Int) = 0; exact_mod_cast h0
+    · right; exact SD_denorm f h x hx h0 _
+  have hr : (⟨(denorm f y).exp, (denorm f y).man, !(denorm f y).neg⟩ : Den).exp = 0 ∨
+      SD f ⟨(denorm f y).exp, (denorm f y).man, !(denorm f y).neg⟩ := by
+    by_cases h0 : y.e = 0
+    · left; show ((y.e : Nat) : Int) = 0; exact_mod_cast h0
+    · right; exact SD_denorm f h y hy h0 _
+  have := addDen_error f h _ _ hl hr z hz hze
+  rw [sval_denorm f h] at this
+  have hneg : sval f ⟨(denorm f y).exp, (denorm f y).man, !(denorm f y).neg⟩ = - val f y := by
+    rw [← sval_denorm f h y]
+    unfold sval dval
+    simp only []
+    split
+    · simp
+    · rw [sgn_not]; ring
+  rw [hneg, ← sub_eq_add_neg] at this
+  exact this
+
+def SubErrorBound (f : Fmt) : Prop :=
+  ∀ x y z : F, F.Valid f x → F.Valid f y → isub f x y = .ok z → z.e ≠ 0 →
+    |val f z - (val f x - val f y)| ≤ 2 * p2 ((z.e : Int) - f.bias)
+
+theorem sub_error (f : Fmt) (h : f.WF) : SubErrorBound f := by
+  intro x y z hx hy hz hze
+  have := sub_error_three_halves f h x y z hx hy hz hze
+  have hp := p2_pos ((z.e : Int) - f.bias)
+  linarith
+
+
+/-- FULL STRENGTH for / : for ALL stored operands with a non-zero divisor, a non-zero quotient is within
+    (1/2 + w/128) ulp of the exact quotient: the shift-and-subtract loop of `_div_den` with its strict
+    comparison and its right-shifting divisor (which loses at most w one bits, `divLoop_spec`) is off by
+    at most w units of the (w+8)-bit quotient, `_normalise` shifts that by at most one bit and rounds -/
+theorem div_error_bound (f : Fmt) (h : f.WF) (hw : f.w ≤ 128) (x y z : F) (hx : F.Valid f x) (hy : F.Valid f y)
+    (hye : y.e ≠ 0) (hz : idiv f x y = .ok z) (hze : z.e ≠ 0) :
+    |val f z - val f x / val f y| ≤ (1 / 2 + (f.w : Rat) / 128) * p2 ((z.e : Int) - f.bias) := by
+  by_cases hxe : x.e = 0
+  · exfalso
+    have : idiv f x y = .ok x := by simp [idiv, F.isZero, hye, hxe]
+    rw [this] at hz; injection hz with hz; subst hz; exact hze hxe
+  · obtain ⟨d, heq, hlt, hbig, hexp, hT⟩ := idiv_dval f h hw x y hx hy hxe hye
+    rw [heq] at hz
+    by_cases hpos : 0 < d.exp
+    · exact normD_error f h d hlt hpos _ (f.w : Rat) (Nat.cast_nonneg _) hT (fun _ => hbig) z hz hze
+    · exfalso
+      unfold normD normalise at hz
+      rw [if_pos (Or.inr (by omega))] at hz
+      injection hz with hz; subst hz; exact hze rfl
+
+/-- the statement's bound for / (< 1 ulp) for every format with at most 63 mantissa bits -/
+theorem div_error (f : Fmt) (h : f.WF) (hw : f.w ≤ 63) : DivErrorBound f := by
+  intro x y z hx hy hye hz hze
+  have := div_error_bound f h (by omega) x y z hx hy hye hz hze
+  have hp := p2_pos ((z.e : Int) - f.bias)
+  have hwq : (f.w : Rat) ≤ 63 := by exact_mod_cast hw
+  have : (1 / 2 + (f.w : Rat) / 128) * p2 ((z.e : Int) - f.bias) < 1 * p2 ((z.e : Int) - f.bias) :=
+    mul_lt_mul_of_pos_right (by linarith) hp
+  linarith
+
+/-- … in particular for the two formats of the current source -/
+theorem div_error_single : DivErrorBound single := div_error single single_wf (by decide)
+theorem div_error_double : DivErrorBound double := div_error double double_wf (by decide)
+theorem add_error_single : AddErrorBound single := add_error single single_wf
+theorem add_error_double : AddErrorBound double := add_error double double_wf
+
+/-- fragment of `AddErrorBound` proved first (exponent-aligned operands); now a special case of `add_error` -/
 theorem add_error_partial (f : Fmt) (h : f.WF) (x y z : F) (hx : F.Valid f x) (hy : F.Valid f y)
     (hxe : x.e ≠ 0) (hye : y.e = x.e) (hz : iadd f x y = .ok z) (hze : z.e ≠ 0) :
     |val f z - (val f x + val f y)| ≤ 2 * p2 ((z.e : Int) - f.bias) := by
@@ -488,12 +588,17 @@ theorem add_error_partial (f : Fmt) (h : f.WF) (x y z : F) (hx : F.Valid f x) (h
   have hp := p2_pos ((z.e : Int) - f.bias)
   linarith
 
-/-- proved fragment of `DivErrorBound`: divisors ±2^n (the quotient is exact) -/
+/-- fragment of `DivErrorBound` proved first (divisors ±2^n, exact quotient); the general case is `div_error` -/
 theorem div_error_partial (f : Fmt) (h : f.WF) (x y z : F) (hx : F.Valid f x) (hxe : x.e ≠ 0) (hye : y.e ≠ 0)
     (hy : manOf f y = f.signMask) (hz : idiv f x y = .ok z) (hze : z.e ≠ 0) :
     |val f z - val f x / val f y| < p2 ((z.e : Int) - f.bias) := by
   rw [(div_pow2_exact f h x y hx hxe hye hy z hz hze).1, sub_self, abs_zero]
   exact p2_pos _
+
+/-! ### commutativity (bit for bit, including error results) -/
+
+theorem add_comm_bytes (f : Fmt) (h : f.WF) (x y : F) : iadd f x y = iadd f y x := iadd_comm f h x y
+theorem mul_comm_bytes (f : Fmt) (x y : F) : imulFixed f x y = imulFixed f y x := imulThr_comm _ f x y
 
 /-! ### non-vacuity: the hypotheses are satisfiable for the formats of the current source -/
 
@@ -508,5 +613,11 @@ example : imulFixed single ⟨0, 1⟩ ⟨0, 128⟩ = .ok zero := by decide
 example : iadd single ⟨0, 129⟩ ⟨0, 129⟩ = .ok ⟨0, 130⟩ := by decide
 example : idiv single ⟨0x400000, 131⟩ ⟨0, 130⟩ = .ok ⟨0x400000, 130⟩ := by decide
 example : idiv double ⟨0, 129⟩ ⟨0x12, 0⟩ = .error (divZero, double.posMax) := by decide
+-- 1 / 3 (inexact quotient, divisor not a power of two), single and double
+example : idiv single ⟨0, 129⟩ ⟨0x400000, 130⟩ = .ok ⟨2796203, 127⟩ := by decide
+example : idiv double ⟨0, 129⟩ ⟨0x40000000000000, 130⟩ = .ok ⟨12009599006321323, 127⟩ := by decide +kernel
+-- 1 + 1/3 (exponent difference 2, inexact), 1 − (1 − 2^-24) (cancellation of 24 bits)
+example : iadd single ⟨0, 129⟩ ⟨2796203, 127⟩ = .ok ⟨2796203, 129⟩ := by decide
+example : isub single ⟨0, 129⟩ ⟨0x7FFFFF, 128⟩ = .ok ⟨0, 105⟩ := by decide
 
 end PcbV.C04
